@@ -4,9 +4,11 @@ import (
 	"bytes"
 	"fmt"
 	"os"
+	"os/exec"
 	"path/filepath"
 	"sort"
 	"strings"
+	"time"
 
 	"github.com/acekingke/yaccgo/verifsim/enga"
 	"github.com/acekingke/yaccgo/verifsim/ref"
@@ -158,8 +160,10 @@ func execC19(ctx *Ctx, in *Input) *Result {
 		// a long old file: a successful run must replace it completely, not just overwrite its head
 		old := sentinel
 		var fresh *enga.Obs
-		pre := (in.Index/len(c19Kinds) + in.Index) % 4 // independent of the failure kind (index mod 12) and the variant
+		pre := (in.Index/len(c19Kinds) + in.Index) % 5 // independent of the failure kind (index mod 12) and the variant
 		switch pre {
+		case 4:
+			old = "" // an empty file (mktemp, touch) is a file, too
 		case 0:
 			old = strings.Repeat(sentinel, 4000)
 		case 2, 3:
@@ -228,11 +232,108 @@ func execC19(ctx *Ctx, in *Input) *Result {
 			return fail("file-touched", "generation failed (%s: %s); the file's bytes are intact but the run performed [%s] on the output path", o.Outcome, firstLines(o.Diag, 1), touched)
 		}
 	}
+	// the same case through the real command line (yaccgo/command.go is code, too): a third of the cases
+	if in.Index%3 == 1 {
+		if v := c19CLI(ctx, res, in, text, kind); v != nil {
+			return v
+		}
+	}
 	res.Keys = append(res.Keys, hkey(text, in.Variant))
 	if in.Index%60 < 12 {
 		res.Sample = map[string]any{"kind": kind, "variant": in.Variant.String(), "late": in.Extra["late"], "grammar": firstLines(in.Spec.Short(), 1)[:min(200, len(in.Spec.Short()))]}
 	}
 	return res
+}
+
+// c19CLI runs the uninstrumented CLI on the case with a pre-existing output file (empty, short, or the earlier output
+// with more text at its end) and applies the same oracle to the file; there is no fs history on this path.
+func c19CLI(ctx *Ctx, res *Result, in *Input, text, kind string) *Result {
+	bin := filepath.Join(ctx.Scratch, "yaccgo-real")
+	if _, err := os.Stat(bin); err != nil {
+		res.Count("cli_binary_missing", 1)
+		return nil
+	}
+	cliCounter++
+	dir := filepath.Join(ctx.Scratch, fmt.Sprintf("c19cli-%d-%d", os.Getpid(), cliCounter))
+	os.MkdirAll(dir, 0o755)
+	defer os.RemoveAll(dir)
+	inp := filepath.Join(dir, "in.y")
+	os.WriteFile(inp, []byte(text), 0o644)
+	args := func(out string) []string {
+		a := []string{"generate"}
+		if in.Variant.Unpack {
+			a = append(a, "-u")
+		}
+		if in.Variant.Object {
+			a = append(a, "-o")
+		}
+		lang := "go"
+		if in.Variant.Lang == "ts" {
+			lang = "typescript"
+		}
+		return append(a, lang, inp, out)
+	}
+	run := func(out string) error {
+		cmd := exec.Command(bin, args(out)...)
+		cmd.Dir = dir
+		done := make(chan error, 1)
+		if err := cmd.Start(); err != nil {
+			return err
+		}
+		go func() { done <- cmd.Wait() }()
+		select {
+		case err := <-done:
+			return err
+		case <-time.After(120 * time.Second):
+			cmd.Process.Kill()
+			<-done
+			return fmt.Errorf("timeout")
+		}
+	}
+	fresh := filepath.Join(dir, "fresh.out")
+	ferr := run(fresh)
+	freshBytes, _ := os.ReadFile(fresh)
+	if ferr != nil && ferr.Error() == "timeout" {
+		res.Count("cli_skipped_hang(C13)", 1)
+		return nil
+	}
+	olds := []string{"", sentinel}
+	if ferr == nil && len(freshBytes) > 0 {
+		olds = append(olds, string(freshBytes)+"\n// SENTINEL: code that was at the end of the epilogue when this file was generated\n")
+	}
+	for oi, old := range olds {
+		path := filepath.Join(dir, fmt.Sprintf("out%d", oi))
+		if err := os.WriteFile(path, []byte(old), 0o644); err != nil {
+			res.Harness = err.Error()
+			return res
+		}
+		err := run(path)
+		after, rerr := os.ReadFile(path)
+		res.Count("cli_runs", 1)
+		fail := func(class, f string, a ...any) *Result {
+			res.Viol = &Violation{Class: class, Key: class + ":" + kind + ":cli", Msg: fmt.Sprintf("failure kind %s, variant %s, real CLI (%s), pre-existing file of %d bytes: ", kind, in.Variant, strings.Join(args("OUT")[1:], " "), len(old)) + fmt.Sprintf(f, a...)}
+			return res
+		}
+		if (err == nil) != (ferr == nil) {
+			res.Harness = fmt.Sprintf("the real CLI succeeded on one of two identical runs and failed on the other (%v / %v)", ferr, err)
+			return res
+		}
+		if err == nil {
+			res.Count("cli_successful_runs", 1)
+			if rerr != nil || !bytes.Equal(after, freshBytes) {
+				return fail("success-file-differs", "the file written over an existing file differs from the file written to a fresh path (%d vs %d bytes)", len(after), len(freshBytes))
+			}
+			continue
+		}
+		res.Count("cli_failed_runs", 1)
+		if rerr != nil {
+			return fail("file-removed", "generation failed (%v) and the existing output file is gone", err)
+		}
+		if string(after) != old {
+			return fail("file-damaged", "generation failed (%v) and the existing output file was changed (%d bytes now)", err, len(after))
+		}
+	}
+	return nil
 }
 
 func min(a, b int) int {
